@@ -16,7 +16,8 @@ def handlers : List (String × (List String → Option String)) :=
     ("asd", Protocol.handle), ("objective", Protocol.Objective.handle), ("calobj", Protocol.Objective.handleCal),
     ("bracket", Protocol.Bracket.handle), ("skeleton", Protocol.Skeletons.handle),
     ("trows", Timed.handleRows), ("tkey", Timed.handleKey),
-    ("init-table", InitTable.handleTable), ("init-untable", InitTable.handleUntable), ("init-apply", InitTable.handleApply), ("init-save", InitTable.handleSave) ]
+    ("init-table", InitTable.handleTable), ("init-untable", InitTable.handleUntable), ("init-apply", InitTable.handleApply), ("init-save", InitTable.handleSave),
+    ("init-accept", Init.handleAccept), ("init-rhs", Init.handleRhs), ("charac", Init.handleCharac), ("init-saved", Init.handleSaved) ]
 
 /-- One request per line: `<kind> <args…>`; one canonical reply per line. -/
 def dispatch (line : String) : String :=
